@@ -72,6 +72,14 @@ def cryptoLine (st : CryptoRun) (lineNo : Nat) (line : String) : Except String (
     let outs := if ok then [] else
       [s!"PROPFAIL C03 golden_v1 line={lineNo} name={get "name"} pure={get "pure"} next={get "next"} wantnext={get "wantnext"} state={(get "state").take 300} want={(get "want").take 300}"]
     .ok ({ st with cases := st.cases + 1, fails := st.fails + outs.length, cover := bump st.cover s!"golden:{get "name"}" }, outs)
+  | "bigdb" :: rest =>
+    -- a database of several megabytes: what was acknowledged is what a reopen finds
+    let fs := fields rest
+    let get := fun k => (lookup fs k).getD ""
+    let ok := get "reopen" == "ok" && get "match" == "1"
+    let outs := if ok then [] else
+      [s!"PROPFAIL C03 reopen_eq line={lineNo} big database step={get "step"} size={get "size"} reopen={(get "reopen").take 200} match={get "match"}"]
+    .ok ({ st with cases := st.cases + 1, fails := st.fails + outs.length, cover := bump st.cover s!"bigdb:{get "step"}" }, outs)
   | "open" :: rest =>
     let fs := fields rest
     let get := fun k => (lookup fs k).getD ""
